@@ -1201,7 +1201,10 @@ class Connection(object):
                 # re-raise an exception that inherits from ConnectionException
                 raise CrcMismatchException(str(exc), self.endpoint)
         else:
+            # not even a complete segment header yet: rewind so that reset_io_buffer()
+            # keeps the bytes read so far instead of dropping them
             self._io_buffer._segment_consumed = False
+            self._io_buffer.io_buffer.seek(0)
 
     def process_io_buffer(self):
         while True:
